@@ -212,7 +212,7 @@ def run(ctx):
             for k in ids:
                 ctx.known_hits[k] += 1
             continue
-        if reported < 3:
+        if reported < 1:
             rc = ctx.violation(f"fail{reported}", {
                 "what": desc, "requests": [c.as_dict() for c in g.cases], "implementation": g.impl, "model_E": g.model,
                 "pattern_features": sorted(feats), "model_agrees_with_implementation": not gm,
@@ -637,7 +637,546 @@ def c15_oracle(ctx, g):
     return []
 
 
+
+# ------------------------------------------------------------------------------------------------
+# shared stream builders
+
+import refmatch
+
+FLAGSETS = ["", "i", "m", "s", "im", "is", "ms", "ims"]
+SMALL_ATOMS = [("lit", "a"), ("lit", "b"), ("dot",), ("bol",), ("eol",)]
+SMALL_QUANTS = [(0, None, "*", True), (1, None, "+", True), (0, 1, "?", True), (2, 2, "{2}", True), (0, 2, "{0,2}", True),
+                (1, 2, "{1,2}", True), (0, None, "*", False), (1, None, "+", False), (0, 1, "?", False), (1, 2, "{1,2}", False)]
+
+
+def random_groups(ctx, n, apis, flags=FLAGSETS, inputs_per=3, maxlen=7, corpus=(), **genkw):
+    """n generated patterns × inputs × the given APIs (each api: (name, repl))"""
+    r = ctx.rnd
+    groups = []
+    for i in range(n):
+        ast, p, alpha = gen_pattern(ctx, **genkw)
+        f = r.choice(flags)
+        extra = "\n" if "m" in f else ""
+        fe = features(ast)
+        for _ in range(inputs_per):
+            s = rand_input(ctx, alpha, maxlen, extra)
+            cs = [Case(p, f, api, s, repl) for api, repl in apis]
+            groups.append(Group(cs, {"features": fe, "input": s, "ast": ast, "flags": f}))
+    return groups
+
+
+def small_groups(ctx, maxsize, maxlen, flagsets, apis):
+    """exhaustive: every AST up to a size bound over {a,b} × every input up to a length bound"""
+    groups = []
+    inputs = rxlib.strings_upto("ab", maxlen)
+    for size in range(1, maxsize + 1):
+        for ast in rxlib.enum_asts(size, SMALL_ATOMS, SMALL_QUANTS):
+            p = render(ast)
+            fe = features(ast)
+            for f in flagsets:
+                for s in inputs:
+                    cs = [Case(p, f, api, s, repl) for api, repl in apis]
+                    groups.append(Group(cs, {"features": fe, "input": s, "ast": ast, "flags": f}))
+    return groups
+
+
+def abnormal(a):
+    return a in ("PANIC", "HANG", "ABORT", "MISSING") or a.startswith("ERR:Internal")
+
+
+def sample(ctx, g, extra=None):
+    if len(ctx.samples) < 8:
+        d = {"pattern": g.cases[0].pattern, "flags": g.cases[0].flags, "input": g.meta.get("input", g.cases[0].input),
+             "answers": [a[:80] for a in g.impl]}
+        if extra:
+            d.update(extra)
+        ctx.samples.append(d)
+
+
+def regroup_same_apis(ctx, g, s):
+    cs = [Case(c.pattern, c.flags, c.api, s, c.repl, c.dialect, c.mode, c.limit) for c in g.cases]
+    m = dict(g.meta)
+    m["input"] = s
+    return Group(cs, m)
+
+
+# ------------------------------------------------------------------------------------------------
+# C01 — is_match decides membership
+
+
+def c01_streams(ctx):
+    if ctx.quick():
+        gs = random_groups(ctx, 5000, [("is_match", "")])
+        gs += small_groups(ctx, 3, 4, [""], [("is_match", "")])
+    else:
+        gs = random_groups(ctx, 60000, [("is_match", "")])
+        gs += small_groups(ctx, 4, 5, ["", "m"], [("is_match", "")])
+        ctx.exhaustive = True
+    return gs
+
+
+def c01_oracle(ctx, g):
+    a = g.impl[0]
+    ctx.hist["is_match:" + a[:12]] += 1
+    if a not in ("T", "F"):
+        return []       # rejected patterns: C07; abnormal outcomes: C05 / C06
+    ref = refmatch.is_match(g.meta["ast"], g.meta["input"], g.meta["flags"])
+    if ref is None:
+        ctx.hist["oracle_budget"] += 1
+        return []
+    key = (g.cases[0].pattern, g.cases[0].flags, g.meta["input"])
+    if ref or a == "T":
+        ctx.distinct.add(key)
+        sample(ctx, g, {"oracle": ref})
+    if (a == "T") != ref:
+        return [f"is_match({g.cases[0].pattern!r}, flags {g.cases[0].flags!r}, {g.meta['input']!r}) = {a}, but "
+                + ("some" if ref else "no") + " substring is in the language of the pattern"]
+    return []
+
+
+# ------------------------------------------------------------------------------------------------
+# C02 — leftmost, non-overlapping, ordered choice
+
+
+def analyze_spans(ans):
+    """match spans (in code points) read off an analyze answer"""
+    ents = parse_analyze(ans)
+    if ents is None:
+        return None
+    out, pos = [], 0
+    for e in ents:
+        n = len(e[1])
+        if e[0] == "M":
+            out.append((pos, pos + n, e[2]))
+        pos += n
+    return out
+
+
+def c02_streams(ctx):
+    n = ctx.scale(4000, 50000)
+    gs = random_groups(ctx, n, [("analyze", "")], flags=["", "", "i", "m", "s", "im"])
+    # astral and combining characters: offsets are code points
+    for p, s in [("b", "\U0001F600b\U00010400b"), ("\U0001F600", "a\U0001F600b\U0001F600"), ("é", "xéye"), (".", "\U00010400")]:
+        gs.append(Group([Case(p, "", "analyze", s)], {"features": set(), "input": s, "ast": ("seq", [("lit", c) for c in p]) if p != "." else ("dot",), "flags": ""}))
+    if not ctx.quick():
+        gs += small_groups(ctx, 4, 5, [""], [("analyze", "")])
+    return gs
+
+
+def c02_oracle(ctx, g):
+    a = g.impl[0]
+    ctx.hist["analyze:" + a[:4]] += 1
+    if not a.startswith("OK:") or a.endswith("+MORE"):
+        return []
+    sp = analyze_spans(a)
+    ast, s, f = g.meta["ast"], g.meta["input"], g.meta["flags"]
+    out = []
+    # left to right, non-overlapping
+    prev = 0
+    for (x, y, _) in sp:
+        if x < prev or y < x:
+            out.append(f"spans are not left to right / disjoint: {[(x, y) for x, y, _ in sp]}")
+        prev = y
+    if out:
+        return out
+    fe = g.meta["features"]
+    pos = 0
+    for k in range(len(sp) + 1):
+        m = refmatch.first_match(ast, s, f, pos)
+        if m is None:
+            ctx.hist["oracle_budget"] += 1
+            return []
+        if k == len(sp):
+            if m is not False and not (m[0] == m[1]):
+                out.append(f"a further match {m[0], m[1]} exists after the last reported span, from offset {pos}")
+            break
+        x, y, _ = sp[k]
+        if m is False:
+            out.append(f"reported span {(x, y)} but no match exists at or after offset {pos}")
+            break
+        if m[0] != x:
+            out.append(f"reported span starts at {x}, the leftmost match from offset {pos} starts at {m[0]}")
+            break
+        ends = refmatch.all_ends(ast, s, f, x)
+        if y not in ends:
+            out.append(f"reported span {(x, y)} is not in the match relation (possible ends from {x}: {ends})")
+            break
+        if m[1] != y and not (fe & {"rep_nullable_body"}):
+            out.append(f"reported span {(x, y)}, ordered choice selects {(m[0], m[1])}")
+            break
+        pos = y if y > x else y + 1
+    if sp:
+        ctx.distinct.add((g.cases[0].pattern, f, s))
+        sample(ctx, g)
+    return out
+
+
+# ------------------------------------------------------------------------------------------------
+# C03 — captured groups
+
+
+def ngroups_of(ast):
+    return max([n[3] for n in rxlib.walk(ast) if n[0] == "grp" and n[1]] + [0])
+
+
+def tree_check(tree, lo, text, nest):
+    """groups properly nested / inside the match; returns list of problems"""
+    probs = []
+
+    def go(es, parent):
+        for e in es:
+            if e[0] == "G":
+                if nest.get(e[1], 0) != parent:
+                    probs.append(f"group {e[1]} appears inside group {parent}, its parent in the pattern is {nest.get(e[1], 0)}")
+                go(e[2], e[1])
+    go(tree, 0)
+    return probs
+
+
+def nesting_of(ast):
+    nest = {}
+
+    def go(n, parent):
+        t = n[0]
+        if t == "grp":
+            if n[1]:
+                nest[n[3]] = parent
+                go(n[2], n[3])
+            else:
+                go(n[2], parent)
+        elif t in ("alt", "seq"):
+            for b in n[1]:
+                go(b, parent)
+        elif t == "rep":
+            go(n[1], parent)
+    go(ast, 0)
+    return nest
+
+
+def c03_streams(ctx):
+    r = ctx.rnd
+    n = ctx.scale(3500, 40000)
+    gs = []
+    for i in range(n):
+        ast, p, alpha = gen_pattern(ctx, maxgroups=r.choice([2, 4, 12]))
+        ng = ngroups_of(ast)
+        if ng == 0:
+            continue
+        f = r.choice(["", "", "i", "m"])
+        repl = "<" + "|".join("$%d" % k for k in range(1, min(ng, 12) + 1)) + ">"
+        fe = features(ast)
+        for _ in range(2):
+            s = rand_input(ctx, alpha, 7)
+            gs.append(Group([Case(p, f, "analyze", s), Case(p, f, "replace", s, repl)],
+                            {"features": fe, "input": s, "ast": ast, "flags": f, "ngroups": ng, "repl": repl}))
+    return gs
+
+
+def c03_oracle(ctx, g):
+    an, rp = g.impl
+    ctx.hist["analyze:" + an[:4]] += 1
+    if not an.startswith("OK:") or an.endswith("+MORE") or not rp.startswith("OK:"):
+        return []
+    ast, s, f, ng = g.meta["ast"], g.meta["input"], g.meta["flags"], g.meta["ngroups"]
+    sp = analyze_spans(an)
+    out = []
+    nest = nesting_of(ast)
+    for (x, y, tree) in sp:
+        if mtext(tree) != s[x:y]:
+            out.append(f"String leaves of the match at {(x, y)} concatenate to {mtext(tree)!r}, matched text is {s[x:y]!r}")
+        out += tree_check(tree, x, s[x:y], nest)
+    if out:
+        return out[:1]
+    # group texts against the ordered-choice reference
+    ref = refmatch.spans(ast, s, f)
+    if ref is None:
+        ctx.hist["oracle_budget"] += 1
+        return []
+    if [(a, b) for a, b, _ in ref] != [(x, y) for x, y, _ in sp]:
+        return []        # span selection is C02's business
+    exp = ""
+    pos = 0
+    for (a, b, caps) in ref:
+        exp += s[pos:a] + "<" + "|".join((s[caps[k][0]:caps[k][1]] if k in caps else "") for k in range(1, min(ng, 12) + 1)) + ">"
+        pos = b
+    exp += s[pos:]
+    got = parse_replace(rp)
+    for (a, b, caps), (x, y, tree) in zip(ref, sp):
+        gt = group_texts(tree, {})
+        for k in range(1, ng + 1):
+            want = s[caps[k][0]:caps[k][1]] if k in caps else None
+            have = gt.get(k)
+            if want != have and not (want in (None, "") and have in (None, "")):
+                out.append(f"match {(a, b)}: analyze reports group {k} = {have!r}, the selected match path captured {want!r}")
+                break
+            if (want is None) != (have is None) and not out:
+                out.append(f"match {(a, b)}: group {k} " + ("did not participate but is reported as empty" if want is None else "participated (empty) but is absent"))
+                break
+        if out:
+            break
+    if not out and got != exp:
+        out.append(f"replace_all with {g.meta['repl']!r} gives {got!r}, the selected match paths give {exp!r}")
+    if sp:
+        ctx.distinct.add((g.cases[0].pattern, f, s))
+        sample(ctx, g)
+    return out[:1]
+
+
+# ------------------------------------------------------------------------------------------------
+# C05 — no panic, no Error::Internal     /     C06 — termination
+
+
+def mutate(r, p):
+    k = r.random()
+    if not p:
+        return r.choice("()[]{}|*+?\\^$-")
+    i = r.randrange(len(p))
+    if k < 0.25:
+        return p[:i] + p[i + 1:]
+    if k < 0.45:
+        return p[:i] + p[i] + p[i:]
+    if k < 0.6 and len(p) > 1:
+        j = r.randrange(len(p))
+        l = list(p)
+        l[i], l[j] = l[j], l[i]
+        return "".join(l)
+    if k < 0.75:
+        return p[:i]
+    return p[:i] + r.choice("()[]{}|*+?\\^$-,0129ipPIs{}:") + p[i:]
+
+
+def c05_streams(ctx):
+    r = ctx.rnd
+    gs = []
+    n = ctx.scale(1800, 25000)
+    metas = "()[]{}|*+?\\^$-.,:0123456789abpPIsLu\n \U0001F600́"
+    for i in range(n):
+        k = r.random()
+        xsd = r.random() < 0.15
+        if k < 0.4:
+            ast, p, alpha = gen_pattern(ctx, big_bounds=True, maxgroups=r.choice([3, 12]), xsd=xsd)
+            kind = "valid"
+        elif k < 0.75:
+            ast, p, alpha = gen_pattern(ctx, big_bounds=True, xsd=xsd)
+            for _ in range(r.randint(1, 2)):
+                p = mutate(r, p)
+            kind = "mutated"
+            ast = None
+        else:
+            p = "".join(r.choice(metas) for _ in range(r.randint(0, 9)))
+            alpha = "ab"
+            kind = "random"
+            ast = None
+        f = r.choice(["", "", "i", "m", "s", "x", "q", "iq", "imsx", "z", ";g", "i;k", "\U0001F600"])
+        s = rand_input(ctx, alpha + "()[", 7, ASTRAL if r.random() < 0.2 else ())
+        repl = r.choice(["$0", "$1", "x", "\\", "$", "$a", "\\$", "$12", ""])
+        d = "xs" if xsd else "xp"
+        cs = [Case(p, f, "compile", "", dialect=d), Case(p, f, "is_match", s, dialect=d), Case(p, f, "replace", s, repl, dialect=d),
+              Case(p, f, "tokenize", s, dialect=d), Case(p, f, "analyze", s, dialect=d), Case(p, f, "tokenize", "", dialect=d)]
+        gs.append(Group(cs, {"features": features(ast) if ast else set(), "input": s, "kind": kind}))
+    # nesting depth (stack exhaustion is explored, not modelled): moderate depths must work
+    for depth in ([50, 200] if ctx.quick() else [50, 200, 1000]):
+        p = "(" * depth + "a" + ")" * depth
+        gs.append(Group([Case(p, "", "is_match", "a")], {"features": set(), "input": "a", "kind": "deep"}))
+    return gs
+
+
+def c05_oracle(ctx, g):
+    ctx.hist["kind:" + g.meta["kind"]] += 1
+    out = []
+    for c, a in zip(g.cases, g.impl):
+        ctx.hist[c.api + ":" + (a.split(":")[0] if not a.startswith("ERR") else a)] += 1
+        if a in ("PANIC", "ABORT") or a.startswith("ERR:Internal"):
+            out.append(f"{c.api} on pattern {c.pattern!r} flags {c.flags!r} input {c.input!r} replacement {c.repl!r} ({c.dialect}): {a}")
+    if g.impl[0] == "OK":
+        ctx.distinct.add((g.cases[0].pattern, g.cases[0].flags))
+    sample(ctx, g)
+    return out[:1]
+
+
+def c06_streams(ctx):
+    r = ctx.rnd
+    gs = []
+    n = ctx.scale(2500, 30000)
+    for i in range(n):
+        ast, p, alpha = gen_pattern(ctx, big_bounds=(r.random() < 0.2))
+        f = r.choice(["", "", "i", "m", "im"])
+        s = rand_input(ctx, alpha, 8, "\n" if "m" in f else "")
+        cs = [Case(p, f, "is_match", s), Case(p, f, "tokenize", s, limit=40), Case(p, f, "analyze", s, limit=40), Case(p, f, "replace", s, "-")]
+        gs.append(Group(cs, {"features": features(ast), "input": s, "ast": ast}))
+    # quantifiers over nullable / zero-width / first-attempt-failing bodies, empty back-references
+    for p in ["(?:a?)*b", "(?:a*)*", "(?:a*)+b", "(?:^)*a", "(?:$|a)+b", "(?:a|ab)+?c", "(?:a|bb)+?c", "(?:^^)*?1", "(?:)*a", "(a?)\\1*b", "(?:a*?)*?b",
+              "(?:(?:a?)+)+b", "(?:a|)+", "(?:a{0,2}){0,3}b", "(b*)\\1+a", "(?:\\n|^)*x"]:
+        for s in ["", "a", "aaaa", "ab", "cc", "c1", "abc", "aaab"]:
+            cs = [Case(p, "", "is_match", s), Case(p, "", "tokenize", s, limit=40), Case(p, "", "analyze", s, limit=40), Case(p, "", "replace", s, "-")]
+            gs.append(Group(cs, {"features": {"rep_nullable_body"}, "input": s}))
+    return gs
+
+
+def c06_oracle(ctx, g):
+    out = []
+    s = g.meta["input"]
+    for c, a in zip(g.cases, g.impl):
+        ctx.hist[c.api + ":" + a[:4]] += 1
+        if a in ("HANG",):
+            out.append(f"{c.api} does not terminate: pattern {c.pattern!r} flags {c.flags!r} input {c.input!r}")
+        elif c.api == "tokenize" and a.startswith("OK:"):
+            n = int(a.split(":")[1])
+            if a.endswith("+MORE") or n > len(s) + 1:
+                out.append(f"tokenize yields more than len+1 = {len(s) + 1} tokens: pattern {c.pattern!r} input {s!r}")
+        elif c.api == "analyze" and a.startswith("OK:"):
+            n = int(a.split(":")[1])
+            if a.endswith("+MORE") or n > 2 * len(s) + 1:
+                out.append(f"analyze yields more than 2*len+1 = {2 * len(s) + 1} entries: pattern {c.pattern!r} input {s!r}")
+    if g.impl[0] in ("T", "F"):
+        ctx.distinct.add((g.cases[0].pattern, g.cases[0].flags, s))
+        sample(ctx, g)
+    return out[:1]
+
+
+# ------------------------------------------------------------------------------------------------
+# C08 — optimisations never change a result
+
+
+def shortcut_pattern(ctx):
+    """patterns biased towards each shortcut"""
+    r = ctx.rnd
+    ast, p, alpha = gen_pattern(ctx)
+    fe = features(ast)
+    k = r.random()
+    a = lambda: r.choice(alpha.replace("\n", "a"))
+    if k < 0.15:
+        p = a() + a() + p                                     # literal prefix
+    elif k < 0.3:
+        p = r.choice(["[ab]", "[^a]", "\\w", "."]) + p        # leading class
+    elif k < 0.45:
+        p = "^" + p                                           # start anchor
+    elif k < 0.7:
+        x = r.choice(["a", "b", "[ab]", "\\w", ".", "\\n", "\\s", "\\d"])
+        q = r.choice(["*", "+", "?", "{2}", "{1,3}", "*?", "+?", "{0,2}?"])
+        y = r.choice(["a", "b", "[ab]", "c", "\\n", "$", "^", "\\w", "(?:a|b)", "b*", "(b)", "1"])
+        tail = r.choice(["", p])
+        if not tail:
+            fe = set()
+        p = r.choice(["", "x"]) + x + q + y + tail
+    elif k < 0.8:
+        p = p + a() * r.randint(3, 6)                         # long minimum length
+    return p, alpha, fe
+
+
+def c08_streams(ctx):
+    r = ctx.rnd
+    gs = []
+    n = ctx.scale(2500, 35000)
+    for i in range(n):
+        p, alpha, fe = shortcut_pattern(ctx)
+        f = r.choice(FLAGSETS)
+        for _ in range(2):
+            s = rand_input(ctx, alpha + "1", 8, "\n" if ("m" in f or r.random() < 0.3) else "")
+            cs = []
+            for mode in ("opt", "noopt"):
+                cs += [Case(p, f, "is_match", s, mode=mode), Case(p, f, "replace", s, "<$0|$1>", mode=mode),
+                       Case(p, f, "tokenize", s, mode=mode), Case(p, f, "analyze", s, mode=mode), Case(p, f, "compile", "", mode=mode)]
+            gs.append(Group(cs, {"features": fe, "input": s}))
+    return gs
+
+
+def c08_oracle(ctx, g):
+    h = len(g.cases) // 2
+    out = []
+    for k in range(h):
+        a, b = g.impl[k], g.impl[h + k]
+        ctx.hist[g.cases[k].api + ":" + a[:3]] += 1
+        if a != b:
+            c = g.cases[k]
+            out.append(f"{c.api}({c.pattern!r}, flags {c.flags!r}, {c.input!r}): optimised {a[:80]!r}, with all optimisations off {b[:80]!r}")
+    if g.impl[0] in ("T", "F"):
+        ctx.distinct.add((g.cases[0].pattern, g.cases[0].flags, g.meta["input"]))
+        sample(ctx, g)
+    return out[:1]
+
+
+
+# ------------------------------------------------------------------------------------------------
+# C09 — class expressions denote their set algebra
+
+
+def c09_streams(ctx):
+    r = ctx.rnd
+    gs = []
+    n = ctx.scale(450, 4000)
+    extra_chars = ["0", "9", " ", "\n", "\t", "-", "^", "]", "[", "\\", "A", "Z", "_", ":", ".", "é", "Σ", "σ", "Ж", "ж", "\U00010400", "\U00010428", "٣", " ", "퟿", "", "\U0010FFFF"]
+    for i in range(n):
+        alpha = r.choice(["abc", "abAB", "a-^b", "ab]\\", "azAZ09", "σΣαΑ", "жЖ", "ab\n"])
+        g = Gen(r, alphabet=alpha)
+        cls = g._cls(0)
+        txt = rxlib.render_cls(cls)
+        f = r.choice(["", "", "i"])
+        use = r.random()
+        if use < 0.6:
+            pat, wrap = "^" + txt + "$", 1
+        elif use < 0.8:
+            pat, wrap = "^(?:" + txt + "){1}$", 1
+        elif use < 0.9:
+            pat, wrap = "^(" + txt + ")$", 1
+        else:
+            pat, wrap = "^" + txt + "+$", 2          # under a quantifier: two members
+        chars = set(alpha) | set(extra_chars)
+        for it in cls[2] + (cls[3][2] if cls[3] else []):
+            for ch in it[1:]:
+                if len(ch) == 1:
+                    for d in (-1, 0, 1):
+                        o = ord(ch) + d
+                        if 0 <= o < 0x110000 and not (0xD800 <= o < 0xE000):
+                            chars.add(chr(o))
+        if not ctx.quick():
+            for _ in range(40):
+                o = r.randrange(0x110000)
+                if not (0xD800 <= o < 0xE000):
+                    chars.add(chr(o))
+        chars = sorted(chars)
+        cs = [Case(pat, f, "is_match", c * wrap) for c in chars]
+        gs.append(Group(cs, {"features": {"negated_class"} if cls[1] else set(), "cls": cls, "flags": f, "chars": chars, "text": txt}))
+    return gs
+
+
+def c09_oracle(ctx, g):
+    out = []
+    cls, f = g.meta["cls"], g.meta["flags"]
+    if g.impl and g.impl[0].startswith("ERR"):
+        ctx.hist["rejected"] += 1
+        return [f"generated class expression {g.meta['text']!r} is rejected: {g.impl[0]}"]
+    for c, ch, a in zip(g.cases, g.meta["chars"], g.impl):
+        if a not in ("T", "F"):
+            continue
+        try:
+            want = refmatch.cls_member(cls, ch, "i" in f)
+        except Exception:
+            continue
+        # Python's unicodedata is Unicode 14: skip characters it does not know when categories are involved
+        ctx.hist["member" if want else "nonmember"] += 1
+        ctx.distinct.add((g.meta["text"], f, ch))
+        if (a == "T") != want:
+            import unicodedata
+            if unicodedata.category(ch) == "Cn" and any(it[0] == "e" for it in cls[2] + (cls[3][2] if cls[3] else [])):
+                ctx.hist["skipped_unassigned_in_python"] += 1
+                continue
+            out.append(f"{g.meta['text']!r} flags {f!r}: character U+{ord(ch):04X} is " + ("" if want else "not ") +
+                       f"a member by set algebra, is_match({c.pattern!r}) says {a}")
+            break
+    if len(ctx.samples) < 8:
+        ctx.samples.append({"class": g.meta["text"], "flags": f, "chars_tested": len(g.cases), "members": sum(1 for a in g.impl if a == "T")})
+    return out
+
+
 PLUGINS = {
+    "C01": {"streams": c01_streams, "oracle": c01_oracle, "regroup": regroup_same_apis},
+    "C02": {"streams": c02_streams, "oracle": c02_oracle, "regroup": regroup_same_apis},
+    "C03": {"streams": c03_streams, "oracle": c03_oracle, "regroup": regroup_same_apis},
     "C04": {"streams": c04_streams, "oracle": c04_oracle, "regroup": c04_regroup},
+    "C05": {"streams": c05_streams, "oracle": c05_oracle, "regroup": regroup_same_apis},
+    "C06": {"streams": c06_streams, "oracle": c06_oracle, "regroup": regroup_same_apis},
+    "C08": {"streams": c08_streams, "oracle": c08_oracle, "regroup": regroup_same_apis},
+    "C09": {"streams": c09_streams, "oracle": c09_oracle},
     "C15": {"streams": c15_streams, "oracle": c15_oracle, "regroup": c15_regroup},
 }
